@@ -148,7 +148,7 @@ def finish(prop, tier, seed, results, known, wall, verbose):
                       'secs': round(r['secs'], 2)})
         assumed.update(r['assumed'])
         solver_secs += r['solver_secs']
-        if not mine and not c.trusted:
+        if not mine and not c.trusted and prop not in S.SAFETY_ONLY:
             undecided.append('%s: zero obligations generated for %s (vacuous)' % (r['key'], prop))
         for o in mine:
             seen_names.add(o['name'])
